@@ -2,6 +2,16 @@
 import json, subprocess
 
 CLAIMED = {
+    "C07": dict(
+        text="Several logical clients (GraphMatcherEngine instances with different attribute selections, plus the stateless "
+             "helpers) issue seeded query histories against a shared pool of small graph objects whose lifetime and cyclic-GC "
+             "timing the simulator controls. Every answer is evaluated three ways: on the shared objects with their history, "
+             "on pristine deep copies with a fresh engine (history independence), and by a backtracking reference on <= 6 nodes "
+             "(verdicts, embedding validity, containment, symmetry); filter on/off pairs are evaluated side by side. "
+             "Seeded sampling of histories x inputs x configurations; evidence, not proof.",
+        ref="3.4",
+        note="Trusted: the backtracking reference (dsim/props/graphref.py). Stub: GC trigger only. hcount direction accepted both "
+             "ways where the statement leaves it open. Real: graph_matcher.py, subgraph_matcher.py, graph_morphism.py, networkx VF2."),
     "C14": dict(
         text="The real BatchReactor / BatchCluster / validators / SynCRN run in one process under a simulated environment: "
              "id() is a simulated address space that re-issues an address only after its owner is provably dead, cyclic GC runs "
